@@ -108,6 +108,7 @@ func run(raw json.RawMessage) driver.Result {
 	} else {
 		o := rty.AllOpts(in.Depth, in.Width)
 		o.Twins = true
+		o.DeepPtrs = true
 		T = rty.GenStruct(r, o, 0)
 	}
 	defaults := reflect.New(T)
